@@ -57,6 +57,7 @@ struct Scheduler
         uint64_t last_run_step = 0;
         bool holds_interest = false; // has a statement in flight or a lock (for the stall probe)
         int prio = 0;
+        int cond_waiting = -1;       // id of the condition variable this thread waits for
     };
     Th t[MAXT];
     sem_t main_sem;
@@ -451,6 +452,79 @@ struct Scheduler
         yield(YK_UNLOCK);
         return 0;
     }
+    // ---- condition variables (pthread_cond_*; std::condition_variable lives in libstdc++.so, so
+    // these are interposed by symbol, not with --wrap).  Waiters block on the condition's id + CONDBASE.
+    static constexpr int CONDBASE = 100000;
+    int cond_wait(const void* c, const void* m, bool timed)
+    {
+        int me = self_id();
+        int cid = mutex_id(c), mid = mutex_id(m);
+        // a thread can be preempted right before it starts to wait (the mutex is still held here:
+        // harmless for a protocol that changes its predicate under the mutex, fatal for one that
+        // does not - the classic lost wake-up)
+        yield(YK_LOCK);
+        // atomically release the mutex and start waiting
+        int depth = mtx_depth[static_cast<size_t>(mid)];
+        if (mtx_owner[static_cast<size_t>(mid)] != me)
+            unlock_not_owner = true;
+        mtx_owner[static_cast<size_t>(mid)] = -1;
+        mtx_depth[static_cast<size_t>(mid)] = 0;
+        wake_waiters(mid);
+        int rc = 0;
+        if (timed && timeout_num > 0)
+        {
+            // stays schedulable; each time it runs un-notified, its patience may be over
+            t[me].cond_waiting = cid;
+            for (;;)
+            {
+                yield(YK_LOCK);
+                if (t[me].cond_waiting != cid)
+                    break; // notified
+                timeout_state = splitmix64(timeout_state);
+                if (timeout_state % 8 < timeout_num)
+                {
+                    f_lock_timeout++;
+                    t[me].cond_waiting = -1;
+                    rc = 110; // ETIMEDOUT
+                    break;
+                }
+                t[me].prio -= 1;
+            }
+        }
+        else
+        {
+            t[me].cond_waiting = cid;
+            block_on(me, CONDBASE + cid);
+        }
+        // re-acquire the mutex before returning
+        while (mtx_owner[static_cast<size_t>(mid)] != -1)
+        {
+            p_contended++;
+            block_on(me, mid);
+        }
+        mtx_owner[static_cast<size_t>(mid)] = me;
+        mtx_depth[static_cast<size_t>(mid)] = depth > 0 ? depth : 1;
+        return rc;
+    }
+    int cond_signal(const void* c, bool all)
+    {
+        int cid = mutex_id(c);
+        for (int i = 0; i < nthreads; i++)
+            if (t[i].cond_waiting == cid)
+            {
+                t[i].cond_waiting = -1;
+                if (t[i].st == S_BLOCKED && t[i].blocked_on == CONDBASE + cid)
+                {
+                    t[i].st = S_RUNNABLE;
+                    t[i].blocked_on = -1;
+                }
+                if (!all)
+                    break;
+            }
+        yield(YK_UNLOCK);
+        return 0;
+    }
+
     // std::this_thread::yield() inside a spin loop: somebody else must get to run
     void spin_yield()
     {
@@ -514,6 +588,7 @@ struct Scheduler
             t[i].blocked_on = -1;
             t[i].last_run_step = 0;
             t[i].holds_interest = false;
+            t[i].cond_waiting = -1;
             t[i].prio = i < static_cast<int>(prios.size()) ? prios[static_cast<size_t>(i)] : i;
         }
     }
